@@ -537,6 +537,7 @@ func genModelWorld(r *Rng, prop string) *World {
 		c.MaxElems = 2
 		root = DeepChain(r, &c, DeepSegments(r))
 	}
+	AddEmptyZogTag(r, root, 0.12)
 	w.Schemas = []*Node{root}
 	no := 1 + r.Intn(4)
 	var ops []Op
@@ -560,6 +561,7 @@ func genModelWorld(r *Rng, prop string) *World {
 			if r.P(0.15) {
 				v = typedLists(root, v)
 			}
+			v = NonEmptyRecords(root, v)
 			op.Input = v
 		}
 		op.Rev = r.P(0.25)
